@@ -3,13 +3,21 @@
 package main
 
 import (
+	"bytes"
+	"context"
 	"fmt"
+	"go/ast"
+	goparser "go/parser"
+	"go/token"
 	"os"
+	"regexp"
 	"path/filepath"
 	"runtime"
 	"strconv"
 	"strings"
+	"time"
 
+	"mvdan.cc/sh/v3/expand"
 	"mvdan.cc/sh/v3/interp"
 	"mvdan.cc/sh/v3/syntax"
 )
@@ -1774,4 +1782,322 @@ func skDedupTags(t []string) []string {
 	return out
 }
 
-func c26Mutations(c *Ctx, dir string, workers int) {}
+// ---------------------------------------------------------------------------------------------
+// second search stream: argument/value mutations of the repository's interpreter test programs
+
+type c26Seed struct{ in, want string }
+
+// c26RunTests reads the {in, want} pairs of `runTests` in interp/interp_test.go.
+func c26RunTests() []c26Seed {
+	fset := token.NewFileSet()
+	af, err := goparser.ParseFile(fset, filepath.Join(repoDir(), "interp", "interp_test.go"), nil, 0)
+	if err != nil {
+		return nil
+	}
+	var str func(e ast.Expr) (string, bool)
+	str = func(e ast.Expr) (string, bool) {
+		switch x := e.(type) {
+		case *ast.BasicLit:
+			if x.Kind != token.STRING {
+				return "", false
+			}
+			v, err := strconv.Unquote(x.Value)
+			return v, err == nil
+		case *ast.BinaryExpr:
+			if x.Op != token.ADD {
+				return "", false
+			}
+			a, ok1 := str(x.X)
+			b, ok2 := str(x.Y)
+			return a + b, ok1 && ok2
+		case *ast.ParenExpr:
+			return str(x.X)
+		}
+		return "", false
+	}
+	var out []c26Seed
+	for _, d := range af.Decls {
+		gd, ok := d.(*ast.GenDecl)
+		if !ok {
+			continue
+		}
+		for _, sp := range gd.Specs {
+			vs, ok := sp.(*ast.ValueSpec)
+			if !ok || len(vs.Names) != 1 || vs.Names[0].Name != "runTests" || len(vs.Values) != 1 {
+				continue
+			}
+			cl, ok := vs.Values[0].(*ast.CompositeLit)
+			if !ok {
+				continue
+			}
+			for _, el := range cl.Elts {
+				e, ok := el.(*ast.CompositeLit)
+				if !ok || len(e.Elts) != 2 {
+					continue
+				}
+				in, ok1 := str(e.Elts[0])
+				want, ok2 := str(e.Elts[1])
+				if ok1 && ok2 {
+					out = append(out, c26Seed{in, want})
+				}
+			}
+		}
+	}
+	return out
+}
+
+// c26Nondet: programs whose output is not a function of the program text (DESIGN Appendix D), or
+// that need the repository's test harness (its exec handler, its helper binaries, a terminal).
+var c26Nondet = regexp.MustCompile(`\$\$|\$!|RANDOM|PPID|SECONDS|BASHPID|EPOCH|SRANDOM|\bdate\b|\btime\b|\btimes\b|\bsleep\b|&\s*($|[^&>|\s])|[^&|>]&$|\bwait\b|\bjobs\b|\bkill\b|\bbg\b|\bfg\b|GOSH_|ENV_PROG|INTERP_|\bpwd\b|PWD|HOME|~|/tmp|mktemp|TMPDIR|\$0|\$_|LINENO|BASH|FUNCNAME|\bcaller\b|\bhistory\b|\bselect\b|\bumask\b|\bulimit\b|\btype\b|\bcommand\b|\bwhich\b|\bhash\b|\bhelp\b|\buname\b|HOSTNAME|\bhostname\b|\bwhoami\b|\bid\b|GROUPS|UID|\bGID\b|\btty\b|/dev/|/proc|/etc|/usr|/bin|\bls\b|\bstat\b|\bfind\b|\benv\b|export -p|declare -p|\bdeclare$|\bset$|set [-+]o$|\bshopt\b|\btrap$|\balias$|\$-|\bdirs\b|\bpushd\b|\bpopd\b|\bcd\b|\bexec\b|\bsource\b|(^|[;&|\s])\.\s|\bcoproc\b|<\(|>\(|\bread\b|\bmapfile\b|\breadarray\b|\bgetopts\b|OPTIND|\bprintenv\b|\bsh\b|\bbash\b|\bchmod\b|\bmkfifo\b|\bln\b|\bpid_and_hang\b|_interactive_only|\bbuiltin\b|\beval\b|\$\{!|\$@|\$\*|\$#|\$[1-9]|\bshift\b|\bset --|\blet\b`)
+
+type c26Mut struct {
+	seed int
+	text string // mutated program ("" for the original)
+	what string
+}
+
+// c26Mutants lists the argument/value mutations of one program: every literal argument word
+// (not the command name, not an option) that is alphanumeric, and every literal assignment value,
+// is replaced by each of two other literals of the same kind.  Arguments of the builtins whose
+// known divergences are tracked elsewhere are left alone (see known-findings.jsonl, exclusions).
+func c26Mutants(src string) []string {
+	parse := func() *syntax.File {
+		f, err := syntax.NewParser().Parse(strings.NewReader(src), "")
+		if err != nil {
+			return nil
+		}
+		return f
+	}
+	f := parse()
+	if f == nil {
+		return nil
+	}
+	isNum := func(s string) bool {
+		if s == "" || len(s) > 3 {
+			return false
+		}
+		for _, r := range s {
+			if r < '0' || r > '9' {
+				return false
+			}
+		}
+		return true
+	}
+	isAlpha := func(s string) bool {
+		if s == "" || len(s) > 8 {
+			return false
+		}
+		for _, r := range s {
+			if !(r >= 'a' && r <= 'z') {
+				return false
+			}
+		}
+		return true
+	}
+	// count candidate sites
+	type site struct{ repl []string }
+	var sites []site
+	collect := func(f *syntax.File, apply int, repl string) {
+		idx := 0
+		visit := func(l *syntax.Lit) {
+			var rs []string
+			switch {
+			case isNum(l.Value):
+				for _, c := range []string{"0", "1", "2", "3"} {
+					if c != l.Value && len(rs) < 2 {
+						rs = append(rs, c)
+					}
+				}
+			case isAlpha(l.Value):
+				for _, c := range []string{"foo", "b", "xyz"} {
+					if c != l.Value && len(rs) < 2 {
+						rs = append(rs, c)
+					}
+				}
+			default:
+				return
+			}
+			if apply < 0 {
+				sites = append(sites, site{rs})
+			} else if idx == apply {
+				l.Value = repl
+			}
+			idx++
+		}
+		syntax.Walk(f, func(n syntax.Node) bool {
+			switch x := n.(type) {
+			case *syntax.CallExpr:
+				if len(x.Args) > 0 {
+					switch x.Args[0].Lit() {
+					case "break", "continue", "printf", "test", "[", "unset", "export", "readonly", "local", "declare", "typeset", "return", "trap", "set", "shopt", "alias", "unalias", "wait", "kill", "exit":
+						// arguments with their own findings (break/continue levels, printf formats …) or
+						// naming shell objects: not mutated
+						for _, as := range x.Assigns {
+							_ = as
+						}
+						return true
+					}
+				}
+				for _, a := range x.Args[min(1, len(x.Args)):] {
+					if len(a.Parts) == 1 {
+						if l, ok := a.Parts[0].(*syntax.Lit); ok {
+							visit(l)
+						}
+					}
+				}
+			case *syntax.Assign:
+				if x.Value != nil && len(x.Value.Parts) == 1 && x.Index == nil && !x.Append {
+					if l, ok := x.Value.Parts[0].(*syntax.Lit); ok {
+						visit(l)
+					}
+				}
+			}
+			return true
+		})
+	}
+	collect(f, -1, "")
+	var out []string
+	for i, st := range sites {
+		for _, r := range st.repl {
+			g := parse()
+			collect(g, i, r)
+			var sb strings.Builder
+			if err := syntax.NewPrinter().Print(&sb, g); err == nil && sb.String() != src {
+				out = append(out, sb.String())
+			}
+		}
+	}
+	return out
+}
+
+// c26RunInterpErr is runInterp that also returns what the interpreter wrote to stderr.
+func c26RunInterpErr(c *Ctx, script string) (res ShellResult, stderr string) {
+	dir := scratchDir(c)
+	defer os.RemoveAll(dir)
+	var errb bytes.Buffer
+	p := safely(func() {
+		f, err := syntax.NewParser().Parse(strings.NewReader(script), "")
+		if err != nil {
+			res.Err = "parse: " + err.Error()
+			res.Status = 2
+			return
+		}
+		var out bytes.Buffer
+		r, err := interp.New(interp.StdIO(nil, &out, &errb), interp.Dir(dir), interp.Env(expand.ListEnviron(shellEnv(c, dir)...)))
+		if err != nil {
+			res.Err = "new: " + err.Error()
+			return
+		}
+		ctx, cancel := context.WithTimeout(context.Background(), 3*time.Second)
+		defer cancel()
+		err = r.Run(ctx, f)
+		res.Stdout = out.String()
+		if ctx.Err() != nil {
+			res.TimedOut = true
+			return
+		}
+		if err != nil {
+			var es interp.ExitStatus
+			if asExit(err, &es) {
+				res.Status = int(es)
+			} else {
+				res.Err = err.Error()
+				res.Status = 1
+			}
+		}
+	})
+	res.Panic = p
+	return res, errb.String()
+}
+
+// c26Agree: stdout and status agree; when the interpreter reported an error on stderr (the
+// repository's `#JUSTERR` convention: bash words and numbers its errors differently) only the
+// stdout and the fact of failing are compared.
+func c26Agree(in ShellResult, inErr string, sh ShellResult) bool {
+	if in.Panic != "" || in.Stdout != sh.Stdout {
+		return false
+	}
+	if in.Status == sh.Status {
+		return true
+	}
+	return (inErr != "" || in.Err != "") && in.Status != 0 && sh.Status != 0
+}
+
+func c26Mutations(c *Ctx, _ string, workers int) {
+	var seeds []c26Seed
+	for _, s := range c26RunTests() {
+		if strings.Contains(s.want, "#IGNORE") || strings.Contains(s.want, "#JUSTERR") {
+			c.Hist["repo-documented-difference"]++
+			continue
+		}
+		if s.in == "" || c26Nondet.MatchString(s.in) {
+			c.Hist["repo-nondeterministic-or-harness-bound"]++
+			continue
+		}
+		seeds = append(seeds, s)
+	}
+	c.Extra["repo_seed_programs"] = len(seeds)
+	if len(seeds) == 0 {
+		return
+	}
+	// the finite mutation space; quick samples it, thorough enumerates this shard's part of it
+	var muts []c26Mut
+	for i, s := range seeds {
+		for _, m := range c26Mutants(s.in) {
+			muts = append(muts, c26Mut{seed: i, text: m})
+		}
+	}
+	c.Extra["repo_mutation_space"] = len(muts)
+	var pick []c26Mut
+	if c.Thorough() {
+		for i, m := range muts {
+			if c.Shards <= 1 || i%c.Shards == c.Shard {
+				pick = append(pick, m)
+			}
+		}
+	} else {
+		n := 120
+		if c.N == 0 {
+			n = 0
+		}
+		for i := 0; i < n && len(muts) > 0; i++ {
+			pick = append(pick, muts[c.R.Intn(len(muts))])
+		}
+	}
+	type res struct {
+		in, sh, in0, sh0 ShellResult
+		inErr, inErr0    string
+		origDiffers      bool
+	}
+	out := parallelMap(len(pick), workers, func(i int) res {
+		var r res
+		// the unmutated program first: seeds on which this bash (5.2) and the interpreter already
+		// differ are version/environment differences of the repository's own expectations
+		// (TestRunnerRunConfirm needs bash 5.3), not mutations
+		r.in0, r.inErr0 = c26RunInterpErr(c, seeds[pick[i].seed].in)
+		r.sh0 = runShell(c, "bash", seeds[pick[i].seed].in)
+		if r.in0.TimedOut || r.sh0.TimedOut || !c26Agree(r.in0, r.inErr0, r.sh0) {
+			r.origDiffers = true
+			return r
+		}
+		r.in, r.inErr = c26RunInterpErr(c, pick[i].text)
+		r.sh = runShell(c, "bash", pick[i].text)
+		return r
+	})
+	for i, r := range out {
+		m := pick[i]
+		if r.origDiffers {
+			c.Case("orig:"+seeds[m.seed].in, false, "repo-original-differs-under-bash-5.2")
+			continue
+		}
+		c.Case("mut:"+m.text, true, "repo-mutant")
+		if r.sh.TimedOut || r.in.TimedOut {
+			c.Hist["repo-mutant-timeout"]++
+			continue
+		}
+		if !c26Agree(r.in, r.inErr, r.sh) {
+			c.Fail(c26Witness(m.text), fmt.Sprintf("mutant of repository test %q: interp stdout %q status %d%s; bash stdout %q status %d",
+				seeds[m.seed].in, r.in.Stdout, r.in.Status, c26Extra(r.in), r.sh.Stdout, r.sh.Status))
+		}
+	}
+}
